@@ -192,6 +192,10 @@ extend("C11", "Round 5 (batch 3): the 68 handshake bytes are taken off the strea
 extend("C13", "Round 5 (batch 3): the announced metadata size reaches the size cap as decoded (only 'negative means none' is applied), so a size of 2^32 or more cannot wrap below the cap.")
 extend("C16", "Round 5 (batch 3): a UDP announce reply of any length is parsed in bounds - the peer list is what follows a whole 20-byte header of a reply whose action is 'announce' (binary.Read's success is an assumed contract).")
 extend("C17", "Round 5 (batch 3): a cancel lowers the upload queue counter only for a removed piece message (never for a queued reject, which was not counted); a memory request whose requester has gone away (cancel channel won the select) reserves nothing.")
+extend("C13", "Bounded stand-in (labelled, not counted): the magnet link exported by Torrent.Magnet() parses back to the tiers, peers, name and info-hash it was added with, for every sequence of up to 3 tiers of up to 3 trackers.")
+extend("C14", "The compaction stand-in also covers a tracker added after the torrents were reloaded by a new session.")
+extend("C04", "Round 5 (batch 3): a re-check that finds pieces missing clears the completed flag before the torrent is stopped again, also when the user asked for the re-check.")
+extend("C11", "The bencode guard answers after the first complete value: the raw block that follows the dictionary of a metadata message is never read as bencode.")
 
 na("C10", "liveness/progress over unbounded schedules of several goroutines: a function contract cannot state fairness or progress measures (DESIGN.md §4 C10)")
 na("C20", "data races and lock-ups quantify over schedules; the contracts are sequential and assume the single-owner discipline C20 asks to prove (DESIGN.md §4 C20)")
